@@ -53,6 +53,16 @@ CHECKS["C05"] = dict(
     note="Outside: the shipped spec modules entry by entry (instances of the mechanism); implementations subclassing another "
          "implementation class; more than two contexts.")
 
+CHECKS["C13"] = dict(
+    text="Bounded symbolic execution of the real _rpm_vercmp / rpm_version_compare / InstalledRpm operators on symbolic strings whose "
+         "characters are unconstrained code points (all of the engine's character universe: 0x01-0x24F plus non-Latin digits, "
+         "letters and separators): differential against an index-based transliteration of rpmvercmp.c evaluated under the same "
+         "path condition, antisymmetry, reflexivity (len<=3 quick / <=4 thorough), transitivity on triples (len<=2 / <=3 on an 8-char "
+         "alphabet), epoch>version>release composition, trichotomy and mutual agreement of all six operators, newest/oldest.",
+    note="Character classes are CPython's own isalnum/isdigit/isalpha tabulated over the universe and turned into z3 range "
+         "disjunctions. Outside: longer strings, code points outside the universe, NUL (not representable in C strings), "
+         "from_package NVR string parsing.")
+
 NOT_APPLICABLE = {
 }
 
